@@ -21,7 +21,7 @@ SmallRecs == [t : {1, 2}, c : {1}, o : Owners, ttl : {1}, n : RNames, v : {0, 1}
 EncLabel(l) == << Len(l) >> \o l \o << 0 >>
 ToWire(r) == [t |-> r.t, c |-> r.c, ow |-> EncLabel(r.o), rd |-> << r.v >> \o EncLabel(r.n) \o << r.v >>,
               spans |-> << << 1, Len(r.n) + 2 >> >>]
-ToText(r) == [o |-> r.o \o << 46 >>, c |-> r.c, t |-> r.t, rd |-> << 48 + r.v, 32 >> \o r.n \o << 46 >>, ttl |-> << 0, r.ttl >>]
+ToText(r) == [o |-> Present(<< r.o >>), c |-> r.c, t |-> r.t, rd |-> << 48 + r.v, 32 >> \o r.n \o << 46 >>, ttl |-> << 0, r.ttl >>]
 D(a, b) == IsDup(ToWire(a), ToWire(b))
 
 \* the six list symbols of the Dedup experiment
@@ -31,11 +31,22 @@ Sym == << [t |-> 1, c |-> 1, o |-> <<97>>, ttl |-> 5, n |-> <<120>>, v |-> 0],  
           [t |-> 1, c |-> 1, o |-> <<97>>, ttl |-> 3, n |-> <<88>>,  v |-> 0],    \* r / rdata-name case
           [t |-> 1, c |-> 1, o |-> <<98>>, ttl |-> 1, n |-> <<120>>, v |-> 0],    \* r2
           [t |-> 1, c |-> 1, o |-> <<97>>, ttl |-> 6, n |-> <<120>>, v |-> 1] >>  \* r3
-ListOf(q) == [i \in 1..Len(q) |-> ToText(Sym[q[i]])]
+\* owner labels for the list experiment: << r's owner, the same in the other case, another owner >>;
+\* octets that the presentation form escapes sit next to the letters whose case changes
+Shapes == << << <<97>>,             <<65>>,             <<98>> >>,                \* a          A          b
+             << <<97, 92, 66>>,     <<65, 92, 98>>,     <<97, 92, 99>> >>,        \* a\\B       A\\b       a\\c      (an escaped backslash, then a letter)
+             << <<97, 46, 66>>,     <<65, 46, 98>>,     <<97, 46, 99>> >>,        \* a\.B       A\.b       a\.c      (a dot inside the label)
+             << <<97, 7, 66>>,      <<65, 7, 98>>,      <<97, 7, 99>> >>,         \* a\007B     A\007b     a\007c
+             << <<92, 92, 66>>,     <<92, 92, 98>>,     <<92, 92, 99>> >>,        \* \\\\B       \\\\b       \\\\c      (two backslashes in a row)
+             << <<66, 92, 92, 92>>, <<98, 92, 92, 92>>, <<99, 92, 92, 92>> >>,    \* B\\\\\\     b\\\\\\
+             << <<92, 66, 34, 90>>, <<92, 98, 34, 122>>, <<92, 99, 34, 90>> >> >>  \* \\B\"Z      \\b\"z
+WithOwner(r, sh) == [r EXCEPT !.o = IF r.o = <<97>> THEN Shapes[sh][1] ELSE IF r.o = <<65>> THEN Shapes[sh][2] ELSE Shapes[sh][3]]
+ListOfS(q, sh) == [i \in 1..Len(q) |-> ToText(WithOwner(Sym[q[i]], sh))]
+ListOf(q) == ListOfS(q, 1)
 
 Init == \/ Mode = "pairs"   /\ \E a \in Recs, b \in Recs : x = << a, b, a >>
         \/ Mode = "triples" /\ x \in SmallRecs \X SmallRecs \X SmallRecs
-        \/ Mode = "lists"   /\ x \in UNION { [1..k -> 1..Len(Sym)] : k \in 0..MaxList }
+        \/ Mode = "lists"   /\ \E q \in UNION { [1..k -> 1..Len(Sym)] : k \in 0..MaxList }, sh \in 1..Len(Shapes) : x = << q, sh >>
 Next == UNCHANGED x
 
 SameBut(a, b, flds) == \A f \in DOMAIN a : f \in flds \/ a[f] = b[f]
@@ -57,7 +68,8 @@ Equivalence ==
 IsSubseq(s, l) == \A k \in 1..(Len(s) - 1) : s[k].i < s[k + 1].i
 DedupProps ==
   Mode = "lists" =>
-    LET l == ListOf(x)  d == DedupIdx(l)  r == Dedup(l) IN
+    LET l == ListOfS(x[1], x[2])  d == DedupIdx(l)  r == Dedup(l) IN
+    /\ \A i \in 1..Len(l) : OwnerOK(l[i])
     /\ Len(d) = Cardinality({ DKey(l[i]) : i \in 1..Len(l) })            \* one per group
     /\ IsSubseq(d, l)                                                      \* original order
     /\ \A k \in 1..Len(d) : IsFirst(l, d[k].i)                             \* the first of its group
@@ -65,5 +77,8 @@ DedupProps ==
     /\ \A k \in 1..Len(d) : \E j \in Group(l, d[k].i) : l[j].ttl = d[k].ttl
     /\ Dedup(r) = r                                                        \* idempotent
     \* records merged by Dedup are duplicates (the converse does not hold: RDATA names differing in case stay apart)
-    /\ \A i, j \in 1..Len(x) : DKey(l[i]) = DKey(l[j]) => D(Sym[x[i]], Sym[x[j]])
+    /\ \A i, j \in 1..Len(x[1]) : DKey(l[i]) = DKey(l[j]) => D(WithOwner(Sym[x[1][i]], x[2]), WithOwner(Sym[x[1][j]], x[2]))
+    \* owner case is not a difference, whatever is escaped next to the letters; anything else is
+    /\ DKey(ToText(WithOwner(Sym[1], x[2]))) = DKey(ToText(WithOwner(Sym[3], x[2])))
+    /\ DKey(ToText(WithOwner(Sym[1], x[2]))) # DKey(ToText(WithOwner(Sym[5], x[2])))
 =============================================================================
